@@ -22,6 +22,7 @@ CORPUS = [
     [("struct C { uint8 a : 4; uint8 b : 4; uint16 c; };", ["C"], [])],
     [("struct D { uint8 *p; uint16 *q[2]; char *s; };", ["D"], [])],
     [("struct E { uint8 x[2][3]; uint16 y[]; };", ["E"], [])],
+    [("struct PP { uint8 **pp; uint16 *q; uint8 **arr[2]; char ***s; };", ["PP"], []), ("typedef uint32 **pp32;", ["pp32"], [])],
     [("struct F { unsigned long long a; signed char b; unsigned short c; long d; };", ["F"], [])],
     [("union G { uint32 a; uint8 b[4]; };", ["G"], [])],
     [("struct H { uint8 t; union { uint16 w; uint8 b[2]; } u; struct { uint8 p; uint8 q; }; uint8 z; };", ["H"], [])],
@@ -461,7 +462,7 @@ def replay(case):
 
 def meta(tier):
     return {
-        "rule": "for each of 29 corpus texts (struct, union, nested/anonymous members, bit-fields, pointers, multi-dimensional and dynamic arrays, enum/flag with base and "
+        "rule": "for each of 30 corpus texts (struct, union, nested/anonymous members, bit-fields, pointers, multi-dimensional and dynamic arrays, enum/flag with base and "
         "expressions, anonymous enum, typedef chains and multi-name typedefs, #define chains, config flags, multi-word C types, identifiers starting with keywords, "
         "self reference, quoted strings with comment markers): EVERY token boundary found by an independent lexer (bracket interiors, #define lines and #[..] flags are "
         "single tokens) x 10 insertions (blank, tab, newline, comment forms incl. a comment containing definition syntax and comments containing the other comment marker); every dependency-respecting permutation of "
